@@ -234,10 +234,11 @@ class Container:
     def _checkForCrossReferences(self, memo=None):
         if not self._checkedForCrossReferences:
             if memo is None:
-                memo = set()
+                memo = []
             if any(x is self for x in memo):
                 raise ContainerException(f"cannot fill a tree that contains the same aggregator twice: {self}")
-            memo.add(self)
+            # an identity list, not a set: hashing a container hashes its whole content and can raise
+            memo.append(self)
             for child in self.children:
                 child._checkForCrossReferences(memo)
             self._checkedForCrossReferences = True
